@@ -13,6 +13,7 @@ from rv.core.tolerances import RANGE_STEP_TOL
 
 ANCHORS = ("arrays/dimensions.py", "arrays/operations.py")
 THOROUGH_SHARDS = 10
+AMBIENT_TESTS = ["tests/test_array", "tests/test_arrays", "tests/test_geometry", "tests/test_audio"]
 
 _installed = False
 
